@@ -319,7 +319,7 @@ impl RetryStream {
         let tries_left = self
             .settings
             .tries
-            .saturating_sub(self.retry_state.current_try);
+            .saturating_sub(self.retry_state.current_try + 1);
 
         self.retry_state.increment(&self.settings);
 
